@@ -280,3 +280,27 @@ pub proof fn c05_user_simulation(h: Seq<UCmd>)
         c05_user_simulation(h.drop_last());
     }
 }
+
+// ---- vacuity: the hypotheses of the restricted lemmas are satisfiable (concrete histories) ----
+// label: C05.sim.shape.hyp_auto_sat
+pub proof fn witness_auto_only()
+    ensures auto_only(seq![Cmd::Create(None), Cmd::Restart, Cmd::Create(None)]),
+{
+}
+// label: C05.sim.shape.hyp_explicit_sat
+pub proof fn witness_all_explicit()
+    ensures all_explicit(seq![Cmd::Create(Some(5)), Cmd::Delete(5), Cmd::Restart]),
+{
+}
+// label: C05.sim.shape.hyp_f7_sat
+pub proof fn witness_f7_free()
+    ensures f7_free(seq![UCmd::Create, UCmd::Restart, UCmd::Create]),
+{
+    let h = seq![UCmd::Create, UCmd::Restart, UCmd::Create];
+    let h1 = Seq::<UCmd>::empty().push(UCmd::Create);
+    lemma_urun_push(Seq::<UCmd>::empty(), UCmd::Create);
+    assert forall|n: int| 0 < n <= h.len() && (#[trigger] h[n - 1]) == UCmd::Restart implies urun(h.take(n - 1)).1.ids.contains(urun(h.take(n - 1)).1.c) by {
+        assert(n == 2);
+        assert(h.take(1) =~= h1);
+    }
+}
